@@ -45,6 +45,7 @@ def run_configs(ctx, pid, mons, configs, heap="12g", workers=8, random_runs=None
     wd = recs.workdir(pid)
     states = trans = nodes = edges = 0
     per = {}
+    samples_extra = []
     evs = sorted(set(",".join(EVENTS[m] for m in mons).split(",")))
     for name, args in configs:
         gf = "%s/g-%s.ndjson" % (wd, name)
@@ -90,6 +91,12 @@ def run_configs(ctx, pid, mons, configs, heap="12g", workers=8, random_runs=None
             json.dump(cfg_json(args), f)
         stats, found = graph.check(ctx, "ProtoGraph", "ProtoGraph.cfg", gf, env={"VF_MON": mons, "VF_CFG": cf},
                                    tag="%s-%s" % (pid, name), heap=heap, workers=2)
+        try:  # a few actual steps of the walk as evidence sample
+            with open(gf) as f:
+                walk_sample = [json.loads(next(f))["succ"][0] for _ in range(6)]
+            samples_extra.append({"random_walk": name, "first_steps": [{"in": e["in"], "ev": e["ev"]} for e in walk_sample]})
+        except Exception:
+            pass
         per[name] = {"random_walk_steps": steps, "seed": ctx.seed, "product_states": stats["distinct"],
                      "product_transitions": stats["generated"], "harness_args": " ".join(args)}
         states += stats["distinct"]
@@ -119,7 +126,7 @@ def run_configs(ctx, pid, mons, configs, heap="12g", workers=8, random_runs=None
                 ctx.notes.append("S => P model check failed: %s" % str(e)[:300])
     first = next(iter(per))
     ctx.coverage = {"states": states, "transitions": trans, "traces_validated_against_impl": len(per),
-                    "samples": [{"config": first, **per[first]}], "configs": per, "graph_nodes": nodes, "graph_edges": edges,
+                    "samples": [{"config": first, **per[first]}] + samples_extra, "configs": per, "graph_nodes": nodes, "graph_edges": edges,
                     "exhaustive": True, "s_model": sdone,
                     "rule": "every configuration's graph is extracted to a fix-point from the real handler; states/transitions "
                             "are those of the product (graph x monitors) explored by TLC"}
